@@ -212,8 +212,18 @@ pub fn judge(h: &History, recs: &[StepRec]) -> Result<(u32, u32), Failure> {
         if r.outcome.is_panic() {
             break;
         }
-        if r.trace.iter().any(|e| matches!(e, Ev::Fault(_))) || r.deliveries.iter().any(|d| matches!(d.verdict, Verdict::SizeDontCare)) {
+        if r.deliveries.iter().any(|d| matches!(d.verdict, Verdict::SizeDontCare)) {
             return Ok((judged, acks));
+        }
+        // a radio fault: whether the uplink of this transaction counts as "the next uplink" and what
+        // became of the answers it carried is not fixed by the statement — obligations are forgotten
+        // (nothing is demanded until the next downlink accepted in a Class A window), the history goes on
+        if r.trace.iter().any(|e| matches!(e, Ev::Fault(_))) {
+            pending = None;
+            sticky.clear();
+            sticky_late.clear();
+            sticky_known = false;
+            continue;
         }
         if matches!(r.step, Step::Join(_) | Step::JoinAbp | Step::SetSession { .. }) {
             pending = None;
